@@ -248,11 +248,11 @@ Plan gen_c14(uint64_t seed, const GenOpts &o, const char *name = "C14") {
   }
   // an interrupted reap in the middle of the life cycle: whatever the interrupted call returned, the handle stays usable
   // and the next waits still find the (dead) child
-  if (faults && g.chance(6)) {
+  if (faults && g.chance(std::string(name) == "C19" ? 30 : 6)) {
     int h = (int) g.r.below((uint64_t) nh);
     g.op(OP_KILL, h);
     g.op(OP_SLEEP, -1).a = 2;
-    Op &w1 = g.op(g.chance(70) ? OP_WAIT : OP_STOP, h); w1.a = w1.kind == OP_WAIT ? 100 : g.C.S_WAIT; w1.b = 100;
+    Op &w1 = g.op(g.chance(70) ? OP_WAIT : OP_STOP, h); w1.a = w1.kind == OP_WAIT ? g.pick({ 100, 100, (int64_t) g.C.INFINITE_ }) : g.C.S_WAIT; w1.b = g.pick({ 100, 100, (int64_t) g.C.INFINITE_ });
     g.fault((int) g.p.ops.size() - 1, g.chance(70) ? K_waitpid : K_poll, 1, false, EINTR);
     g.op(OP_SLEEP, -1).a = 2;
     g.op(OP_WAIT, h).a = g.pick({ 0, 50 });
@@ -995,6 +995,8 @@ Plan gen_c11(uint64_t seed, const GenOpts &o) {
     if (rlimit_fault) g.fault((int) g.p.ops.size() - 1, K_getrlimit, 1, true, (int) g.pick({ EPERM, EINVAL }));
     // a descriptor-flag call failing in the forked child: the start fails or the child is still clean, never a quiet success with more inherited
     else if (nthreads == 1 && g.chance(12)) g.fault((int) g.p.ops.size() - 1, K_fcntl_setfd, (int) g.r.range(1, 6), true, (int) g.pick({ EINTR, EINVAL }));  // (not the query form: the close loop uses it as its is-open probe)
+    // the mask reset in the forked child fails (pthread_sigmask hands its error back without touching errno)
+    else if (nthreads == 1 && g.chance(6)) g.fault((int) g.p.ops.size() - 1, K_sigmask, (int) g.r.range(1, 2), true, EINVAL);
     g.op(OP_CLOSE, t, t).a = g.C.STREAM_IN;
     g.op(OP_WAIT, t, t).a = 1000;
     g.op(OP_DESTROY, t, t);
@@ -1115,7 +1117,9 @@ Plan gen_c17(uint64_t seed, const GenOpts &o) {
   s.nonblocking = g.chance(75);
   if (kind == 4) s.nonblocking = true;
   s.err.type = g.chance(50) ? g.C.R_PIPE : g.C.R_DEFAULT;
-  if (g.chance(35)) s.input_size = g.pick({ 0, 1, (int64_t) cap - 1, (int64_t) cap, (int64_t) cap + 1, 4 * (int64_t) cap });
+  // the mode is a property of the handle, whichever of the three streams happen to be pipes
+  if (g.chance(15)) { s.err.type = g.C.R_PIPE; s.in.type = g.chance(70) ? g.C.R_DISCARD : g.C.R_PIPE; s.out.type = g.C.R_DISCARD; }
+  if (g.chance(35) && s.in.type != g.C.R_DISCARD) s.input_size = g.pick({ 0, 1, (int64_t) cap - 1, (int64_t) cap, (int64_t) cap + 1, 4 * (int64_t) cap });
   s.stop[0] = g.C.S_KILL; s.stop[1] = g.C.INFINITE_;
   g.op(OP_NEW, 0);
   // the handle may have a history: a start that failed (program not found, bad directory) in the *other* mode
@@ -1238,6 +1242,27 @@ Plan gen_c20(uint64_t seed, const GenOpts &o) {
   } else {
     // N threads, each a complete start / communicate / wait / destroy cycle on its own child
     int n = (int) g.r.range(2, 4);
+    // a share of these plans is about time: every thread starts a long-lived child with a deadline and waits for that deadline,
+    // while threads get stalled for up to seconds between two of their own instructions
+    bool timed = scenario == 2 && g.chance(30);
+    if (timed) {
+      w.stall_num = (unsigned) g.pick({ 0, 50, 150, 300 });
+      w.preempt_num = (unsigned) g.pick({ 30, 60, 100 });
+      for (int t = 0; t < n; t++) {
+        g.add_child(child_quiet(100000, false, 20 + t));
+        g.op(OP_NEW, t, t);
+        StartSpec s = simple_start(g, t);
+        s.in.type = s.out.type = g.C.R_DISCARD;
+        s.deadline = (int) g.pick({ 20, 50, 120, 400 });
+        s.stop[0] = g.C.S_KILL; s.stop[1] = g.C.INFINITE_;
+        if (t > 0 && g.chance(50)) g.op(OP_SLEEP, -1, t).a = g.pick({ 1, 5, 30 });
+        Op &st = g.op(OP_START, t, t); st.spec = g.add_start(s);
+        if (g.chance(50)) { Op &pl = g.op(OP_POLL, t, t); pl.v.push_back(t); pl.v.push_back((int64_t) g.C.E_EXIT); pl.a = g.pick({ 10, 1000, (int64_t) g.C.INFINITE_ }); }
+        g.op(OP_WAIT, t, t).a = g.C.DEADLINE_;
+        g.op(OP_DESTROY, t, t);
+      }
+      return g.p;
+    }
     for (int t = 0; t < n; t++) {
       ChildSpec c;
       c.script.push_back(Step{ Step::WRITE, 1, g.pick({ 5, 500 }), 0 });
@@ -1298,7 +1323,7 @@ std::vector<Outcome> outcomes_for(Kind k, bool child_side) {
     case K_fcntl_getfd: case K_fcntl_getfl: return { { EINVAL, 0, true } };
     case K_fcntl_setfd: case K_fcntl_setfl: return { { EINVAL, 0, true } };
     case K_fcntl_other: return { { EMFILE, 0, false }, { EINVAL, 0, true } };  // F_DUPFD / F_DUPFD_CLOEXEC
-    case K_read: return { { EINTR, 0, false } };
+    case K_read: return { { EINTR, 0, false } };  // (a read on a pipe has no other transient failure: EIO and friends cannot happen there)
     case K_write: return { { EINTR, 0, false }, { EAGAIN, 0, false }, { F_SHORT, 1, false } };
     case K_poll: return { { EINTR, 0, false }, { ENOMEM, 0, false } };
     case K_open: return { { EMFILE, 0, false }, { ENFILE, 0, false }, { EINTR, 0, false }, { ENOMEM, 0, false } };
